@@ -26,8 +26,9 @@ that exactly the C17 theorems stop compiling), but the facts are about MEANING, 
         as a small statement tree in which runs of independent simple effects are sorted
         (theorem C17_source_shape);
       - path facts: after every `H2.send_data(...)` / `H2.send_headers(...)` in Stream.send_data /
-        send_headers / send_request the counter-reset hook is reached on EVERY path with no await, no
-        return, no further send in between (theorem C17_every_frame_resets);
+        send_headers / send_request the counter-reset hook is reached on EVERY path of normal control
+        flow (if/else, with, try/else/finally, block ends, `break` out of a loop) with no await, return,
+        raise, loop edge or further send in between (theorem C17_every_frame_resets);
       - every write to the four keepalive variables anywhere in grpclib/, attributed to the entry points
         (private helpers folded into their callers) (theorem C17_keepalive_writers).
 """
@@ -745,61 +746,80 @@ def method_effects(name, R, cls_methods=None):
 
 # ---- path facts about the wire sends of Stream
 
-def must_reach(stmts, tail, h2calls, reset):
-    """on EVERY path through stmts (then tail) the reset hook is called before any await, return, raise,
-    loop edge or further h2 send"""
+# A continuation says what runs after the current statement list:
+#   None                      the function ends
+#   ('seq', stmts, parent)    these statements, then parent
+#   ('loop', None, parent)    we are inside a loop body: falling off its end goes round the loop (a loop
+#                             edge), `break` continues with parent (the statements after the loop)
+
+def seq(stmts, k):
+    return ('seq', list(stmts), k) if stmts else k
+
+
+def must_reach(stmts, k, h2calls, reset):
+    """on EVERY path of normal control flow from here (through if/else, with, the else: and finally: of a
+    try, the end of enclosing blocks, `break` out of a loop) the reset hook is called before any await,
+    return, raise, loop edge (`continue`, end of a loop body, a nested loop) or further h2 send"""
     for i, st in enumerate(stmts):
         rest = stmts[i + 1:]
         if isinstance(st, ast.Expr) and isinstance(st.value, ast.Call) and u(st.value.func) == reset:
             return True
-        if has_await(st) or any(isinstance(n, ast.Call) and u(n.func) in h2calls for n in ast.walk(st)):
-            return False
-        if isinstance(st, (ast.Return, ast.Raise, ast.Break, ast.Continue)):
+        if isinstance(st, ast.Break):
+            while k is not None and k[0] != 'loop':
+                k = k[2]
+            if k is None:
+                raise Unsupported('break outside a loop')
+            return must_reach([], k[2], h2calls, reset)
+        if isinstance(st, (ast.Return, ast.Raise, ast.Continue)):
             return False
         if isinstance(st, ast.If):
-            return must_reach(st.body + rest, tail, h2calls, reset) and \
-                must_reach(st.orelse + rest, tail, h2calls, reset)
-        if isinstance(st, (ast.With,)):
-            return must_reach(st.body + rest, tail, h2calls, reset)
+            if has_await(st.test):
+                return False
+            return must_reach(st.body, seq(rest, k), h2calls, reset) and \
+                must_reach(st.orelse, seq(rest, k), h2calls, reset)
+        if isinstance(st, ast.With):
+            if any(has_await(i.context_expr) for i in st.items):
+                return False
+            return must_reach(st.body, seq(rest, k), h2calls, reset)
         if isinstance(st, ast.Try):
-            if st.handlers and any(True for _ in st.handlers):
-                # an exception between send and hook would skip the hook: only accept try blocks that
-                # are followed on every path
-                return must_reach(st.body + st.orelse + st.finalbody + rest, tail, h2calls, reset)
-            return must_reach(st.body + st.orelse + st.finalbody + rest, tail, h2calls, reset)
-        if isinstance(st, (ast.While, ast.For, ast.AsyncFor)):
+            # the path of a frame that WAS sent is the normal one: body, else:, finally:, what follows
+            return must_reach(st.body, seq(st.orelse, seq(st.finalbody, seq(rest, k))), h2calls, reset)
+        if isinstance(st, (ast.While, ast.For, ast.AsyncFor, ast.AsyncWith)):
             return False
-    if tail is None:
+        if has_await(st) or any(isinstance(n, ast.Call) and u(n.func) in h2calls for n in ast.walk(st)):
+            return False
+    if k is None or k[0] == 'loop':
         return False
-    return must_reach(tail[0], tail[1], h2calls, reset)
+    return must_reach(k[1], k[2], h2calls, reset)
 
 
 def send_site(body, h2call, reset, h2calls):
     calls = ok = 0
 
-    def walk(stmts, tail):
+    def walk(stmts, k):
         nonlocal calls, ok
         for i, st in enumerate(stmts):
             rest = stmts[i + 1:]
-            here = (rest, tail)
+            here = seq(rest, k)
             if isinstance(st, ast.Expr) and any(isinstance(n, ast.Call) and u(n.func) == h2call
                                                 for n in ast.walk(st)):
                 if not (isinstance(st.value, ast.Call) and u(st.value.func) == h2call):
                     raise Unsupported('h2 send inside an expression: ' + u(st)[:80])
                 calls += 1
-                if must_reach(rest, tail, h2calls, reset):
+                if must_reach(rest, k, h2calls, reset):
                     ok += 1
             elif isinstance(st, ast.Try):
-                walk(st.body, (st.orelse + st.finalbody + rest, tail))     # else: runs right after the body
+                after = seq(st.finalbody, here)
+                walk(st.body, seq(st.orelse, after))          # else: runs right after the body
                 for h in st.handlers:
-                    walk(h.body, (st.finalbody + rest, tail))
-                walk(st.orelse, (st.finalbody + rest, tail))
+                    walk(h.body, after)
+                walk(st.orelse, after)
                 walk(st.finalbody, here)
             elif isinstance(st, ast.If):
                 walk(st.body, here)
                 walk(st.orelse, here)
             elif isinstance(st, (ast.While, ast.For, ast.AsyncFor)):
-                walk(st.body, None)             # the end of a loop body goes round: nothing follows
+                walk(st.body, ('loop', None, here))
                 walk(st.orelse, here)
             elif isinstance(st, (ast.With, ast.AsyncWith)):
                 walk(st.body, here)
